@@ -296,17 +296,21 @@ pub fn run(toks: &[&str]) -> String {
         Ok(x) => x,
         Err(_) => return "err - -".into(),
     };
-    let waker = futures_util::task::noop_waker();
+    let count = std::sync::Arc::new(CountWake(std::sync::atomic::AtomicUsize::new(0)));
+    let waker = std::task::Waker::from(count.clone());
     let mut cx = Context::from_waker(&waker);
     let mut all = Vec::new();
     let mut counts = Vec::new();
     let mut failed = false;
+    let stalled = std::cell::Cell::new(false);
     let mut read_once = |rewind: &mut hyperdriver::verif_hooks::Rewind<ScriptIo>, cap: usize| -> Option<Vec<u8>> {
         let mut storage = vec![0u8; cap];
         let mut rb = hyper::rt::ReadBuf::new(&mut storage);
         for _ in 0..10_000 {
+            let before = count.0.load(std::sync::atomic::Ordering::SeqCst);
             match Pin::new(&mut *rewind).poll_read(&mut cx, rb.unfilled()) {
-                Poll::Pending => continue,
+                // (as an executor would: polled again only because the scripted `Pending` below woke the task)
+                Poll::Pending => { if count.0.load(std::sync::atomic::Ordering::SeqCst) == before { stalled.set(true); return None; } continue }
                 Poll::Ready(Ok(())) => return Some(rb.filled().to_vec()),
                 Poll::Ready(Err(_)) => return None,
             }
@@ -333,6 +337,7 @@ pub fn run(toks: &[&str]) -> String {
             }
         }
     }
+    if stalled.get() { return "stall - -".into(); }
     format!(
         "{} {} {}",
         if h2 { "h2" } else { "h1" },
